@@ -215,6 +215,7 @@ fn kbucket_table() -> SimResult {
     }
     note_val("cfg", size as u64 + 8 * timeout.as_secs());
     note_val("steps", (steps / 8) as u64);
+    note_val("shape", (applied_n.min(7) as u64) + 8 * (full_n.min(15) as u64) + 128 * (present.len() as u64) + 8192 * (pending.len() as u64));
     Ok(())
 }
 
@@ -377,6 +378,7 @@ fn closest_iter() -> SimResult {
     }
     note_val("cfg", (parallelism + 8 * num_results) as u64);
     note_val("n", (g.peers.len() / 4) as u64);
+    note_val("shape", result.len() as u64 + 8 * (contacted.len() as u64) + 512 * (succeeded.len() as u64) + 32768 * (resolved.len().min(31) as u64));
     Ok(())
 }
 
